@@ -31,6 +31,7 @@ type FnContract struct {
 	Safety     []string // tags for automatic safety obligations
 	Requires   []*Clause
 	Ensures    []*Clause
+	Assumes    []*Clause // like ensures at call sites, but not proved for the body (listed as assumption)
 	Invariants []*Clause
 	Calls      []*Clause
 	Boundary   []*Clause
@@ -73,7 +74,7 @@ type ContractSet struct {
 var clauseKw = map[string]bool{"func": true, "requires": true, "ensures": true, "loop": true, "calls": true,
 	"tags": true, "safety": true, "boundary": true, "modifies": true, "trusted": true, "pure": true,
 	"bounded": true, "lemma": true, "import": true, "inline": true, "nobody": true, "nullable": true,
-	"fresh": true, "maypanic": true, "end": true, "macro": true}
+	"fresh": true, "maypanic": true, "end": true, "macro": true, "assumes": true}
 
 var reTagList = regexp.MustCompile(`^\[([A-Za-z0-9, ]+)\]\s*`)
 var reAtName = regexp.MustCompile(`^@([A-Za-z0-9_.\-]+)\s*`)
@@ -254,7 +255,7 @@ func (cs *ContractSet) ParseContractFile(path, pkgPath string) error {
 				cur.Bounded = rest
 			case "end":
 				cur = nil
-			case "requires", "ensures", "boundary":
+			case "requires", "ensures", "boundary", "assumes":
 				c, err := parseClause(kw, rest)
 				if err != nil {
 					return err
@@ -266,6 +267,8 @@ func (cs *ContractSet) ParseContractFile(path, pkgPath string) error {
 					cur.Ensures = append(cur.Ensures, c)
 				case "boundary":
 					cur.Boundary = append(cur.Boundary, c)
+				case "assumes":
+					cur.Assumes = append(cur.Assumes, c)
 				}
 			case "loop":
 				// loop <key> invariant <expr>
